@@ -5,7 +5,11 @@ use crate::util::*;
 pub enum ProvErr {
     Sig(&'static str), // SignatureError kind name
     Foreign,
+    /// a foreign error that is a bare `std::io::Error` of this kind (by name), or a plain string error ("str")
+    ForeignOther(&'static str),
 }
+
+pub const FOREIGN_OTHER: [&str; 5] = ["NotFound", "PermissionDenied", "TimedOut", "Other", "str"];
 
 #[derive(Clone, Debug, PartialEq)]
 pub enum Answer {
@@ -76,9 +80,10 @@ impl Case {
                 .collect::<Vec<_>>()
                 .join(",")
         };
+        // the model knows one kind of foreign error: whatever its type, it is an internal failure
         let perr = |e: &ProvErr| match e {
             ProvErr::Sig(k) => format!("E{}", k),
-            ProvErr::Foreign => "F".to_string(),
+            ProvErr::Foreign | ProvErr::ForeignOther(_) => "F".to_string(),
         };
         let ready = match &self.ready_err {
             None => "R".to_string(),
@@ -114,6 +119,7 @@ impl Case {
         let perr = |e: &ProvErr| match e {
             ProvErr::Sig(k) => format!("E{}", k),
             ProvErr::Foreign => "F".to_string(),
+            ProvErr::ForeignOther(k) => format!("G{}", k),
         };
         let hdrs = if self.headers.is_empty() { ".".to_string() } else { self.headers.iter().map(|(n, v)| format!("{}:{}", hx(n.as_bytes()), hx(v))).collect::<Vec<_>>().join(",") };
         format!(
@@ -133,7 +139,7 @@ impl Case {
         let f: Vec<&str> = all[1..].to_vec();
         let s = |x: &str| String::from_utf8(unhx(x)).unwrap();
         let list = |x: &str| -> Vec<String> { if x == "." { vec![] } else { x.split(',').map(|y| String::from_utf8(unhx(y)).unwrap()).collect() } };
-        let perr = |x: &str| -> ProvErr { if x == "F" { ProvErr::Foreign } else { ProvErr::Sig(KINDS.iter().find(|k| **k == &x[1..]).copied().unwrap()) } };
+        let perr = |x: &str| -> ProvErr { if x == "F" { ProvErr::Foreign } else if let Some(k) = x.strip_prefix('G') { ProvErr::ForeignOther(FOREIGN_OTHER.iter().find(|o| **o == k).copied().unwrap()) } else { ProvErr::Sig(KINDS.iter().find(|k| **k == &x[1..]).copied().unwrap()) } };
         Case {
             s3: f[0] == "1", fold: f[1] == "1", region: s(f[2]), service: s(f[3]), now: (f[4].parse().unwrap(), f[5].parse().unwrap()),
             always: list(f[6]), ifreq: list(f[7]), prefixes: list(f[8]), vec_reqs: f[9] == "1", req_ops: vec![], method: s(f[10]), version, uri: s(f[11]),
